@@ -43,8 +43,20 @@ def parseKind (w : String) : Option (Kind × Bool) :=
   | ['a', c] => (idx? (String.ofList [c]) 3).map fun h => (.handler h, true)
   | _ => none
 
+/-- "1.2" (strictly ascending, '.'-separated) or "-" -/
+def parseSigsDot (w : String) : Option (List Nat) :=
+  if w == "-" then some [] else do
+    let l ← (w.splitOn ".").mapM (fun x => idx? x nSig)
+    if l.Pairwise (· < ·) then some l else none
+
 def parseAct (w : String) : Option Act :=
   match w.toList with
+  | 'i' :: rest =>
+      match (String.ofList rest).splitOn ":" with
+      | [j, sg, m] => do
+          let j ← idx? j 64; let sg ← parseSigsDot sg
+          if m == "o" then some (.init j sg true) else if m == "p" then some (.init j sg false) else none
+      | _ => none
   | 'e' :: rest => (idx? (String.ofList rest) 64).map .enable
   | 'd' :: rest => (idx? (String.ofList rest) 64).map .disable
   | 'x' :: rest => (idx? (String.ofList rest) 64).map .destroy
